@@ -360,3 +360,39 @@ C13 = dict(
                  "completions are restricted to the declared type for typed unknowns"],
 )
 FAMILIES["C13"] = C13
+
+
+# ----------------------------------------------------------------- C14
+def _tpe_case(world, c, i):
+    return dict(id=i, pols=c["pols"], base=c["base"], erase=c["erase"], compl=c["compl"])
+
+
+def _tpe_setup(world):
+    return dict(setup=dict(schema=world["schema"], envs=world["envs"]))
+
+
+def _mutate_tpe(ev):
+    if ev.get("ev") != "Tpe" or not ev.get("reauth") or "decision" not in ev["reauth"][0]:
+        return None
+    ev = json.loads(json.dumps(ev))
+    r = ev["reauth"][0]
+    r["decision"] = "Deny" if r["decision"] == "Allow" else "Allow"
+    return ev
+
+
+C14 = dict(
+    family="tpe", trace_module="Trace_Tpe.tla",
+    models=[dict(name="mc_tpe", module="MC_Tpe.tla", cfg=dict(quick="MC_Tpe.cfg", thorough="MC_Tpe.cfg"),
+                 cases=_tpe_case, setup=_tpe_setup, limit=dict(quick=1200, thorough=None))],
+    nontrivial=lambda ev: ev.get("ev") == "Tpe",
+    key=lambda ev: [ev.get("pols"), ev.get("base"), ev.get("erase")],
+    mutate=_mutate_tpe, chunk=150,
+    rule="G: 178 strictly valid policy sets over schema Sc2 (guarded optional attributes, chains through entity references, tags, context, membership, "
+         "arithmetic) x 4 base environments x every erasure of <=2 of {principal id, context, u1 attrs, u1 ancestors, u1 tags, u2 absent, doc attrs, u1 absent}; "
+         "completions = every environment of the 3840-element parameter universe consistent with the partial input (TLC-enumerated). For each case: definite "
+         "decision and true/false/error classes hold on every completion, every view's residual evaluates (in TLC) like its original on every completion, the "
+         "views (policies, policy_set, get_policy, residual_policies) present the same residuals, reauthorize == reference. quick samples 1200 of 26196 cases.",
+    assumptions=["permission queries (query_resource / query_principal / query_action) are not driven yet",
+                 "completions range over the model universe only (a subset of all consistent completions)"],
+)
+FAMILIES["C14"] = C14
